@@ -1662,9 +1662,9 @@ def checks(h):
     ok2 = [(k, t) for k, t in kinds if table[k]["l1"] == "ok" and
            (table[k]["l2"] == "ok" or (global_bad and table[k]["l2"] == "bad"))]
     if ok1:
-        h.hyp("L1_programs", l1_strategy(ok1), lambda r: check_l1(h, r), h.scale(60, 3000), seed_salt=1)
+        h.hyp("L1_programs", l1_strategy(ok1), lambda r: check_l1(h, r), h.scale(60, 2000), seed_salt=1)
     if ok2:
-        h.hyp("L2_programs", l2_strategy(ok2), lambda r: check_l2(h, r), h.scale(60, 3000), seed_salt=2)
+        h.hyp("L2_programs", l2_strategy(ok2), lambda r: check_l2(h, r), h.scale(60, 2000), seed_salt=2)
     for i, rec in enumerate(l2_directed(ok2)):
         if i % h.nshards == h.shard:
             if kind_of(rec["prog"]["body"][0]) in table and table[kind_of(rec["prog"]["body"][0])]["l1"] == "ok":
@@ -1672,7 +1672,7 @@ def checks(h):
     for i, rec in enumerate(l3_directed(not h.quick)):
         if i % h.nshards == h.shard:
             check_l3(h, rec, label="L3_directed", distinct=True)
-    h.hyp("L3_snippets", l3_strategy(), lambda r: check_l3(h, r), h.scale(250, 8000), seed_salt=3)
+    h.hyp("L3_snippets", l3_strategy(), lambda r: check_l3(h, r), h.scale(250, 6000), seed_salt=3)
 
 
 def replay(h, recipe):
